@@ -176,7 +176,7 @@ CLS_NS = [[], ["acme"], ["@scope"], ["github.com", "phylum-dev"], ["%40scope%2Fe
           ["example.org", "repo.git", "..", "..", "etc"], [".", "a.git", "."]]
 CLS_NAME = ["name", "a/b", "%2Fetc", "tool.git", "n@m", "Foo_.-Bar", "\u039f\u0394\u039f\u03a3", "\u0130" + KEL + "-x", "100%25", "n" * 40, "g:a", "report%2520final",
             "@types/node", "\u023a\u023a_", "a+b c", "requests[security]", "Zope.Interface[Test_Extra]", "django>=4.2", "commons-io-2.11.jar",
-            "zope--interface", "a---b--c", "x__y", "x..y", "-lead", "trail-", "S\u00c9-\u00c9s"]
+            "zope--interface", "a---b--c", "x__y", "x..y", "-lead", "trail-", "S\u00c9-\u00c9s", "\u023aB", "Json.\u023aNET", "\u0130stanbulGIS"]
 CLS_VER = [None, "1.0", "1.0/beta", "v@1", "1.0.0-rc.1+build.5", "\u00fc1", "%2F%2e", "1.0?x#y", "1.0.0.0", "13.0.3.00", "01.02", "1.0.0+incompatible", "V1.2.3-BETA"]
 CLS_QUALS = [
     ([], None),
